@@ -34,6 +34,10 @@ pub fn show_result(r: &Result<ResolvedRecord, ResolutionError>) -> Value {
             "rrs": rrs.iter().map(show_rr).collect::<Vec<_>>(),
             "soa": soa_rr.as_ref().map(show_rr),
         }),
+        Ok(ResolvedRecord::Referral { ns_rrs }) => json!({
+            "kind": "Referral",
+            "ns": ns_rrs.iter().map(show_rr).collect::<Vec<_>>(),
+        }),
         Err(e) => json!({ "kind": "Error", "error": e.to_string() }),
     }
 }
@@ -1229,6 +1233,7 @@ fn oracle_c08(plan: &ResolvePlan, obs: &Observations) -> RunResult {
                 rrs.iter().cloned().chain(std::iter::once(soa_rr.clone())).collect()
             }
             Ok(ResolvedRecord::AuthoritativeNameError { soa_rr }) => vec![soa_rr.clone()],
+            Ok(ResolvedRecord::Referral { ns_rrs }) => ns_rrs.clone(),
             Err(e) => {
                 match e {
                     ResolutionError::Timeout => bump(&mut res.stats, "probe.timeout_60s"),
@@ -1643,7 +1648,7 @@ fn oracle_c10(plan: &ResolvePlan, obs: &Observations) -> RunResult {
         }
         let rrs: Vec<ResourceRecord> = match &q.result {
             Ok(ResolvedRecord::NonAuthoritative { rrs, .. } | ResolvedRecord::Authoritative { rrs, .. }) => rrs.clone(),
-            Ok(ResolvedRecord::AuthoritativeNameError { .. }) => Vec::new(),
+            Ok(ResolvedRecord::AuthoritativeNameError { .. } | ResolvedRecord::Referral { .. }) => Vec::new(),
             Err(e) => {
                 match e {
                     ResolutionError::RecursionLimit => bump(&mut res.stats, "probe.recursion_limit"),
